@@ -52,8 +52,8 @@ Definition ss_new (c : ss_config) : segsizes :=
 (* payload_size.min(u16::MAX as usize) as u16; min_ss = min_ss.max(p); max_ss = max_ss.max(min_ss) *)
 Definition on_payload_delivered (s : segsizes) (payload_size : Z) : segsizes :=
   let p := (Z.min payload_size U16_MAX) mod M16 in
-  let mn := Z.max (min_ss s) p in
-  {| min_ss := mn; max_ss := Z.max (max_ss s) mn; cd_rem := cd_rem s; cd_max := cd_max s |}.
+  {| min_ss := Z.max (min_ss s) (Z.min p (max_ss s)); max_ss := max_ss s;
+     cd_rem := cd_rem s; cd_max := cd_max s |}.
 
 Definition mss (s : segsizes) : Z := min_ss s.
 
